@@ -462,3 +462,8 @@ def run(ctx):
                  "marks leak into, or vanish from, the thread or CPU timeline", 8)
     round3.share(ctx, "R17.5", "C05", lambda i_: i_["rule"] == "R5.1" and "migrate" in i_["inst"], "migration:",
                  "the CPU the thread left keeps showing its marks", 1)
+    ctx.rule("R17.6", "the CPU row of the marks selects on the CPU's running-thread channel (C06 R6.3's instances for "
+             "mark.c's own connect function)")
+    from rules import round4
+    round4.share(ctx, "R17.6", "C06", lambda i_: i_["rule"] == "R6.3" and i_["inst"].startswith("mark:"), "cpu-row:",
+                 "a warming thread's marks show on the CPU and the running thread's marks vanish", 2)
